@@ -147,6 +147,12 @@ class _P:
                     if e == "d":
                         items.append((0x30, 0x39))
                         continue
+                    if e == "w":
+                        items += [(0x30, 0x39), (0x41, 0x5A), (0x61, 0x7A), (0x5F, 0x5F)]
+                        continue
+                    if e == "s":
+                        items += [(9, 13), (0x20, 0x20)]
+                        continue
                     if e == "t":
                         lo = hi = 9
                     elif e == "n":
@@ -178,6 +184,16 @@ class _P:
                 return ("bref", int(e))
             if e == "d":
                 return ("cls", False, ((0x30, 0x39),))
+            if e == "D":
+                return ("cls", True, ((0x30, 0x39),))
+            if e == "w":
+                return ("cls", False, ((0x30, 0x39), (0x41, 0x5A), (0x61, 0x7A), (0x5F, 0x5F)))
+            if e == "W":
+                return ("cls", True, ((0x30, 0x39), (0x41, 0x5A), (0x61, 0x7A), (0x5F, 0x5F)))
+            if e == "s":
+                return ("cls", False, ((9, 13), (0x20, 0x20)))
+            if e == "S":
+                return ("cls", True, ((9, 13), (0x20, 0x20)))
             if e == "t":
                 return ("lit", "\t")
             if e == "n":
@@ -201,7 +217,7 @@ def parse(text):
 
 def has_la(n):
     k = n[0]
-    if k in ("lit", "cls", "bref", "str"):
+    if k in ("lit", "cls", "bref", "str", "set"):
         return False
     if k in ("nla", "pla", "prep"):
         return True
@@ -222,7 +238,7 @@ def has_bref(n):
     k = n[0]
     if k == "bref":
         return True
-    if k in ("lit", "cls", "str"):
+    if k in ("lit", "cls", "str", "set"):
         return False
     if k in ("cat", "alt"):
         return any(has_bref(x) for x in n[1])
@@ -244,7 +260,7 @@ def expand_brefs(n, g):
         if n[1] - 1 >= len(g):
             raise Unsupported("back-reference to undefined group")
         return ("str", g[n[1] - 1])
-    if k in ("lit", "cls", "str"):
+    if k in ("lit", "cls", "str", "set"):
         return n
     if k in ("cat", "alt"):
         return (k, [expand_brefs(x, g) for x in n[1]])
@@ -368,7 +384,10 @@ class Tr:
                 if ord(ch) not in self.w.alphabet:
                     raise Unsupported(f"literal {ch!r} outside the alphabet")
             return self.w.lit(n[1], cols)
-        codes = self.w.cls_codes(n[1], n[2])
+        if n[0] == "set":
+            codes = [c for c in n[1] if c in self.w.alphabet]
+        else:
+            codes = self.w.cls_codes(n[1], n[2])
         if not codes:
             return EMPTY
         return self.w.chars(codes, cols)
@@ -381,7 +400,7 @@ class Tr:
 
     def plain(self, n, cols, grpcols=None):
         k = n[0]
-        if k in ("lit", "cls", "str"):
+        if k in ("lit", "cls", "str", "set"):
             return self.leaf(n, cols)
         if k == "cat":
             return concat(self.plain(x, cols, grpcols) for x in n[1])
